@@ -241,7 +241,7 @@ func (s *Spec) initialize() {
 	for name, response := range s.spec.Responses {
 		refPref := slashpath.Join("/responses", jsonpointer.Escape(name))
 		for k, v := range response.Headers {
-			hRefPref := slashpath.Join(refPref, "headers", k)
+			hRefPref := slashpath.Join(refPref, "headers", jsonpointer.Escape(k))
 			if v.Items != nil {
 				s.analyzeItems("items", v.Items, hRefPref, "header")
 			}
@@ -387,7 +387,7 @@ func (s *Spec) analyzeDefaultResponse(prefix string, res *spec.Response) {
 	}
 
 	for k, v := range res.Headers {
-		hRefPref := slashpath.Join(refPref, "headers", k)
+		hRefPref := slashpath.Join(refPref, "headers", jsonpointer.Escape(k))
 		s.analyzeItems("items", v.Items, hRefPref, "header")
 		if v.Pattern != "" {
 			s.patterns.addHeaderPattern(hRefPref, v.Pattern)
@@ -410,7 +410,7 @@ func (s *Spec) analyzeResponse(prefix string, k int, res spec.Response) {
 	}
 
 	for k, v := range res.Headers {
-		hRefPref := slashpath.Join(refPref, "headers", k)
+		hRefPref := slashpath.Join(refPref, "headers", jsonpointer.Escape(k))
 		s.analyzeItems("items", v.Items, hRefPref, "header")
 		if v.Pattern != "" {
 			s.patterns.addHeaderPattern(hRefPref, v.Pattern)
